@@ -265,6 +265,9 @@ def obligations(tier, seed):
                 obs.append(dict(oid="K/iri-join/depth%d/ups%d%s" % (depth, ups, "".join("/" + k for k in extra)), family="k-iri-join", desc=d,
                                 sig=[("s1", "s"), ("s2", "s"), ("f", "s"), ("name", "s")],
                                 pre=["len(s1) <= 1", "len(s2) <= 1", "len(f) <= 1", "len(name) <= 1"], budget=400))
+    for shape in ("two-blocks", "default-then-block", "graph-keyword", "one-block"):
+        obs.append(dict(oid="K/trig-labels/%s" % shape, family="k-doc-labels", desc={"shape": shape}, sig=[("l1", "i"), ("l2", "i")],
+                        pre=["97 <= l1 <= 122", "97 <= l2 <= 122"], budget=600, twin_budget=300))
     for present in ([1, 0, 0], [1, 0, 1], [1, 1, 0], [0, 1, 1], [1, 1, 1], [0, 0, 1], [0, 0, 0]):
         obs.append(dict(oid="K/rdfxml-lang/%s" % "".join(map(str, present)), family="k-rdfxml-lang", desc={"present": present},
                         sig=[("l0", "s"), ("l1", "s"), ("l2", "s")], pre=["len(l0) <= 1", "len(l1) <= 1", "len(l2) <= 1"],
